@@ -298,8 +298,6 @@ def gen_doc(rng, *, stratum: str):
     finding = {"mixed": "F-C17-4", "srefkw": "F-C17-5", "compkw": "F-C17-6"}.get(stratum)
     if stratum == "srefkw" and sref_n == 0:
         finding = None
-    if stratum == "mixed" and len({(s["isAmount"], s["hosu"]) for s in species}) < 2:
-        finding = None
     all_ids = ([c for c, _ in comps] + [s["id"] for s in species] + [p for p, _ in params] + [f["id"] for f in fundefs]
                + [r["id"] for r in rxns] + [x[2] for r in rxns for x in r["reactants"] + r["products"] if x[2]])
     if len(set(all_ids)) != len(all_ids):
@@ -839,6 +837,112 @@ def judge_doc(ctx, case, R, M, S=None, what="imported model differs from the doc
     return ctx.judge(small, Rv, S, None, finding=case["finding"], what=what)
 
 
+# ---------------------------------------------------------------------------------------------- shrinking
+
+
+def _calls(m):
+    if m[0] == "call":
+        yield m[1]
+        for a in m[2]:
+            yield from _calls(a)
+    elif m[0] not in ("ci", "cn", "csym"):
+        for a in m[1]:
+            yield from _calls(a)
+
+
+def _num_kids(m):
+    t = m[0]
+    if t in ("ci", "cn", "csym"):
+        return []
+    if t == "call":
+        return list(m[2])
+    if t == "AST_FUNCTION_PIECEWISE":
+        return [k for i, k in enumerate(m[1]) if i % 2 == 0 or i == len(m[1]) - 1]
+    if t.startswith("AST_RELATIONAL") or t.startswith("AST_LOGICAL"):
+        return []
+    return list(m[1])
+
+
+def _candidates(case):
+    import copy
+
+    d = case["doc"]
+    if len(case["states"]) > 1:
+        c = copy.deepcopy(case)
+        c["states"] = c["states"][:1]
+        yield c
+    for i in range(len(d["rxns"])):
+        if len(d["rxns"]) > 1:
+            c = copy.deepcopy(case)
+            del c["doc"]["rxns"][i]
+            yield c
+    maths = [m for _, m in d["inits"]] + [m for _, m in d["rules"]] + [r["law"] for r in d["rxns"]] + [
+        f["body"] for f in d["fundefs"]]
+    used = {n for m in maths for n in math_names(m)}
+    used |= {x[2] for r in d["rxns"] for x in r["reactants"] + r["products"] if x[2]}
+    called = {f for m in maths for f in _calls(m)}
+    for i, (v, _) in enumerate(d["rules"]):
+        if v not in used:
+            c = copy.deepcopy(case)
+            del c["doc"]["rules"][i]
+            c["doc"]["params"] = [p for p in c["doc"]["params"] if p[0] != v]
+            c["watch"] = [w for w in c["watch"] if w != v]
+            yield c
+    for i, f in enumerate(d["fundefs"]):
+        if f["id"] not in called:
+            c = copy.deepcopy(case)
+            del c["doc"]["fundefs"][i]
+            yield c
+    for i in range(len(d["inits"])):
+        c = copy.deepcopy(case)
+        sym = c["doc"]["inits"][i][0]
+        del c["doc"]["inits"][i]
+        for sp in c["doc"]["species"]:
+            if sp["id"] == sym and sp["init"] is None:
+                sp["init"] = "1"
+        c["doc"]["params"] = [[p, ("1" if p == sym and v is None else v)] for p, v in c["doc"]["params"]]
+        yield c
+    for i, r in enumerate(d["rxns"]):
+        for kid in _num_kids(r["law"]):
+            c = copy.deepcopy(case)
+            c["doc"]["rxns"][i]["law"] = kid
+            yield c
+    for i, (_, m) in enumerate(d["rules"]):
+        for kid in _num_kids(m):
+            c = copy.deepcopy(case)
+            c["doc"]["rules"][i][1] = kid
+            yield c
+
+
+def shrink(ctx, viol, budget: int = 40):
+    from vlib.framework import Ctx
+
+    case, what = viol["case"], viol.get("what")
+    if "doc" not in case:
+        return viol
+    spent, progress = 0, True
+    while progress and spent < budget:
+        progress = False
+        for cand in _candidates(case):
+            if spent >= budget:
+                break
+            spent += 1
+            try:
+                M = lean_docs(ctx, [cand])[0]
+                R = real_worker((cand, dict(M["names"]) if M else {}))
+                probe = Ctx(ctx.prop, ctx.tier, ctx.seed)
+                probe.known, probe.fixed = ctx.known, ctx.fixed
+                judge_doc(probe, cand, R, M)
+            except Exception:  # noqa: BLE001
+                continue
+            hit = [v for v in probe.violations if v.get("what") == what]
+            if hit:
+                case, viol = hit[0]["case"], hit[0]
+                progress = True
+                break
+    return viol
+
+
 # ---------------------------------------------------------------------------------------------- run
 
 
@@ -909,7 +1013,7 @@ def setup(ctx):
 
 
 def strata(ctx):
-    n = ctx.n(1, 12)
+    n = ctx.n(1, 40)
     return [("exact", 110 * n), ("float", 60 * n), ("keywords", 40 * n), ("initname", 15 * n), ("mixed", 15 * n),
             ("srefkw", 12 * n), ("compkw", 6 * n), ("digits", 12 * n)]
 
@@ -956,6 +1060,15 @@ def run(ctx):
         ctx.judge(case, Rv, S, None, what="a second document read in the same session interferes with the first model")
     check_stems(ctx)
     check_free_name(ctx)
+    docs = [v for v in ctx.violations if "case" in v and "doc" in v["case"]]
+    if docs:
+        from vlib.framework import canon
+
+        v = min(docs, key=lambda v: len(canon(v)))
+        small = shrink(ctx, v)
+        if small is not v:
+            ctx.violations.append(small)
+            ctx.notes.append("failing input minimised by delta debugging")
     shutil.rmtree(SCRATCH, ignore_errors=True)
     if not ctx.proof_ok or ctx.drift:
         ctx.notes.append("proof/correspondence broken: the run above is the failing-input search")
